@@ -23,7 +23,9 @@ def _probe(cls, n):
 
 
 def emit_all(emit):
-    from classy_blocks.optimize.cell import HexCell, QuadCell
+    from classy_blocks.optimize.cell import CellBase, HexCell, QuadCell
+    from classy_blocks.optimize.grid import GridBase
+    from classy_blocks.optimize.junction import Junction
     from classy_blocks.util import constants
 
     emit("hexAspectPairs", "List (Nat × Nat)", _probe(HexCell, 8),
@@ -31,3 +33,23 @@ def emit_all(emit):
     emit("quadAspectPairs", "List (Nat × Nat)", _probe(QuadCell, 4),
          "corner pairs (a<b) measured by QuadCell.get_edge_lengths, in the order returned (probe)")
     emit("vsmallIs1em6", "Bool", bool(constants.VSMALL == 1e-6), "constants.VSMALL == 1e-6 (the guard the model hard-codes)")
+
+    # the statement skeletons of the methods on the execution path of `CellBase.quality`, read off the current source
+    # text with `ast` (see cbv/tables/c15.py: one string per statement, `depth:text`, locals renamed a0, a1, …)
+    from .c15 import skeleton
+
+    S = "List String"
+    emit("c14SrcQuality", S, skeleton(CellBase.quality), "CellBase.quality (order of the terms, q_scale constants, guards)")
+    emit("c14SrcEdgeLengths", S, skeleton(CellBase.get_edge_lengths), "CellBase.get_edge_lengths")
+    emit("c14SrcPoints", S, skeleton(CellBase.points), "CellBase.points")
+    emit("c14SrcCenter", S, skeleton(CellBase.center), "CellBase.center")
+    emit("c14SrcSidePoints", S, skeleton(CellBase.get_side_points), "CellBase.get_side_points")
+    emit("c14SrcSideCenter", S, skeleton(CellBase.get_side_center), "CellBase.get_side_center")
+    emit("c14SrcQuadNormal", S, skeleton(QuadCell.normal), "QuadCell.normal (corners 0, 1, 3)")
+    emit("c14SrcQuadSideNormals", S, skeleton(QuadCell.get_side_normals), "QuadCell.get_side_normals")
+    emit("c14SrcQuadInnerAngles", S, skeleton(QuadCell.get_inner_angles), "QuadCell.get_inner_angles")
+    emit("c14SrcHexSideNormals", S, skeleton(HexCell.get_side_normals), "HexCell.get_side_normals")
+    emit("c14SrcHexInnerAngles", S, skeleton(HexCell.get_inner_angles), "HexCell.get_inner_angles")
+    emit("c14SrcGridQuality", S, skeleton(GridBase.quality), "GridBase.quality")
+    emit("c14SrcJunctionQuality", S, skeleton(Junction.quality), "Junction.quality")
+    emit("c14SrcGridUpdate", S, skeleton(GridBase.update), "GridBase.update")
